@@ -300,32 +300,32 @@ def rule_c(chk, prog):
         if not isinstance(t, FuncInfo):
             continue
         n_calls += 1
+        any_ref = False
         for i, a in enumerate(c.args):
-            ps = roles.paths(rmp, a)
-            user = sorted(p for p in ps if p.startswith("USER."))
-            if not user or i >= len(t.params):
+            # an object handed over by reference (a name / attribute, not a fresh copy such as deepcopy(x))
+            if not isinstance(a, (ast.Name, ast.Attribute)) or i >= len(t.params):
                 continue
             w = _writes_formal(prog, t, t.params[i])
             construct = f"{t.qualname}({norm(a)}, ...) under `harvest_date is None`"
             if w:
+                any_ref = True
                 chk.violation("C20.c", where, construct,
-                              f"executed only when the harvest date is unset, and it modifies the user's {user[0]} ({w}): leaving the default "
-                              "unset changes what the rest of the initialisation sees", loc=rmp.loc(c))
-            else:
-                chk.ok("C20.c", where, construct, "does not write the object it is given")
-        if not any(roles.paths(rmp, a) for a in c.args):
-            chk.ok("C20.c", where, f"{t.qualname}(...) under `harvest_date is None`", "receives no user-owned object (works on a copy)")
+                              f"executed only when the harvest date is unset, and it modifies the object `{norm(a)}` that the rest of the "
+                              f"initialisation goes on to use ({w}): leaving the default unset changes what a run with the date stated sees",
+                              loc=rmp.loc(c))
+        if not any_ref:
+            chk.ok("C20.c", where, f"{t.qualname}(...) under `harvest_date is None`", "writes no object handed over by reference (works on a copy)")
     chk.floor("C20.c", n_calls, 1, "calls executed only when the harvest date is unset")
-    # the only user field written in the block is the harvest date itself
-    for s in stores(prog, rmp, roles):
-        nid = flow.stmt_node.get(id(s.node))
+    # the only field written directly in the block is the harvest date itself
+    for s_ in stores(prog, rmp, roles):
+        nid = flow.stmt_node.get(id(s_.node))
         if nid is None or (gid, True) not in flow.cfg.transitive_control_deps(nid):
             continue
-        for p in s.paths:
-            if p.startswith("USER.") and p != "USER.crop.harvest_date":
-                chk.violation("C20.c", where, s.text, f"the default-materialising block writes {p}", loc=rmp.loc(s.node))
-            elif p == "USER.crop.harvest_date":
-                chk.ok("C20.c", where, s.text, "materialises the default into the field that was None")
+        if s_.kind == "attr":
+            if s_.field == "harvest_date":
+                chk.ok("C20.c", where, s_.text, "materialises the default into the field that was None")
+            else:
+                chk.violation("C20.c", where, s_.text, f"the default-materialising block writes .{s_.field}", loc=rmp.loc(s_.node))
 
 
 def run(chk, prog, tier):
